@@ -312,17 +312,9 @@ Section Multi.
 Variable dur : Z -> Z -> Z.
 Variable m : Z -> Z -> Z.      (* leg measure of the objective: distance (or duration without waiting) *)
 
-Fixpoint apply_steps (t : list act) (steps : list (nat * act)) : list act :=
-  match steps with
-  | [] => t
-  | (idx, a) :: r => apply_steps (reschedule dur (insert_after t idx a)) r
-  end.
-
-Fixpoint multi_leg (t : list act) (steps : list (nat * act)) : Z :=
-  match steps with
-  | [] => 0
-  | (idx, a) :: r => leg_estimate m t idx a + multi_leg (reschedule dur (insert_after t idx a)) r
-  end.
+(* apply_steps / multi_leg are in Model/Objectives.v (they are evaluated by the correspondence check) *)
+Local Notation apply_steps := (Objectives.apply_steps dur).
+Local Notation multi_leg := (Objectives.multi_leg dur m).
 
 (* every step addresses an existing activity of the then-current shadow tour and inserts a job activity *)
 Fixpoint steps_ok (t : list act) (steps : list (nat * act)) : Prop :=
@@ -358,7 +350,7 @@ Lemma multi_leg_exact_nonempty : forall steps t,
   has_jobs t = true -> steps_ok t steps ->
   total_distance m (apply_steps t steps) - total_distance m t = multi_leg t steps.
 Proof.
-  induction steps as [|[idx a] r IH]; intros t Hj Hok; cbn [apply_steps multi_leg]; [lia|].
+  induction steps as [|[idx a] r IH]; intros t Hj Hok; cbn [Objectives.apply_steps Objectives.multi_leg]; [lia|].
   destruct Hok as (Hidx & Ha & Hr).
   pose proof (leg_estimate_exact m t idx a Hidx ltac:(intros H; congruence)) as H1. rewrite Hj in H1.
   pose proof (IH _ (has_jobs_after_insert t idx a Ha) Hr) as H2.
@@ -371,7 +363,7 @@ Theorem multi_leg_exact : forall steps t,
   (has_jobs t = false -> (length t <= 2)%nat /\ fst (hd (0%nat, mkAct 0 0 0 0 0 dzero 0 0) steps) = 0%nat) ->
   total_distance m (apply_steps t steps) - (if has_jobs t then total_distance m t else 0) = multi_leg t steps.
 Proof.
-  intros [|[idx a] r] t Hne Hok Hempty; [congruence|]. cbn [apply_steps multi_leg].
+  intros [|[idx a] r] t Hne Hok Hempty; [congruence|]. cbn [Objectives.apply_steps Objectives.multi_leg].
   destruct Hok as (Hidx & Ha & Hr). cbn [hd fst] in Hempty.
   pose proof (leg_estimate_exact m t idx a Hidx Hempty) as H1.
   pose proof (multi_leg_exact_nonempty r _ (has_jobs_after_insert t idx a Ha) Hr) as H2.
